@@ -138,6 +138,25 @@ const FAMILIES: &[&str] = &[
     "renderer",
     "missing-doc",
     "multi",
+    "detached-first",
+    "env-defaults",
+];
+
+/// the documented variables a document's `defaults: {environment: ...}` tries to displace (value as YAML)
+const DISPLACE: &[(&str, &str)] = &[
+    ("TMPDIR", "{ELSEWHERE}"),
+    ("TMPDIR", "{ELSEWHERE}"),
+    ("TESTDIR", "bogus-testdir"),
+    ("TESTFILE", "bogus.md"),
+    ("TESTSHELL", "/bin/false"),
+    ("LANG", "de_DE.UTF-8"),
+    ("LANGUAGE", "de"),
+    ("LC_ALL", "de_DE.UTF-8"),
+    ("TZ", "Europe/Berlin"),
+    ("COLUMNS", "\"213\""),
+    ("CDPATH", "/tmp:/usr"),
+    ("GREP_OPTIONS", "\"-v\""),
+    ("SCRUT_TEST", "\"bogus.md:1\""),
 ];
 
 const HOSTILE: &[(&str, &str)] = &[
@@ -177,6 +196,15 @@ fn basic_tests(rng: &mut Rng, n: usize, allow_fail: bool, force_fail: bool) -> V
         v[l] = t("probe-fail");
     }
     v
+}
+
+/// a `{detached: true}` first test case, followed by a short sleeper that gives the detached shell time to finish
+/// while the document is still being run
+fn prepend_detached(tests: &mut Vec<T>) {
+    let mut s = t("sleep");
+    s.sleep_ms = 300;
+    tests.insert(0, s);
+    tests.insert(0, t("detached"));
 }
 
 fn fmt_of(rng: &mut Rng) -> String {
@@ -266,7 +294,10 @@ fn gen(k: u64, rng: &mut Rng, thorough: bool) -> C18Case {
     let plain = |rng: &mut Rng, fail: bool| -> Doc {
         let f = fmt_of(rng);
         let n = 1 + rng.below(4);
-        let tests = basic_tests(rng, n, fail, fail);
+        let mut tests = basic_tests(rng, n, fail, fail);
+        if f == "md" && rng.chance(1, 5) {
+            prepend_detached(&mut tests);
+        }
         let dir = *rng.pick(DIRS);
         let name = *rng.pick(NAMES);
         doc_at(rng, dir, name, &f, tests)
@@ -401,6 +432,36 @@ fn gen(k: u64, rng: &mut Rng, thorough: bool) -> C18Case {
             case.procs.push(json_proc(docs, args));
             case.shell = if family == "missing-shell" { "missing" } else { "nonexec" }.into();
         }
+        "detached-first" | "env-defaults" => {
+            let mut docs = vec![];
+            for i in 0..1 + rng.below(2) {
+                let n = 2 + rng.below(3);
+                let mut tests = basic_tests(rng, n, true, true);
+                let mut front = String::new();
+                if family == "detached-first" {
+                    prepend_detached(&mut tests);
+                } else {
+                    front.push_str("defaults:\n  environment:\n");
+                    let mut seen = BTreeSet::new();
+                    for _ in 0..1 + rng.below(4) {
+                        let (k, v) = *rng.pick(DISPLACE);
+                        if seen.insert(k) {
+                            front.push_str(&format!("    {k}: {v}\n"));
+                        }
+                    }
+                    front.push_str("    VH_OWN_VARIABLE: kept");
+                }
+                let dir = *rng.pick(DIRS);
+                let mut d = doc_at(rng, dir, &format!("doc{i}"), "md", tests);
+                d.front = front;
+                docs.push(d);
+            }
+            let args = docs.iter().enumerate().map(|(i, d)| arg(i, rand_form(rng, &d.rel))).collect();
+            case.procs.push(json_proc(docs, args));
+            if family == "detached-first" {
+                case.delay_ms = 300;
+            }
+        }
         "renderer" => {
             let nt = 1 + rng.below(2);
             let mut tests = basic_tests(rng, nt, false, false);
@@ -463,6 +524,8 @@ fn test_cmd(sb: &Sandbox, id: &str, t: &T, cram: bool) -> (String, Vec<String>) 
         "cram-exit" => (format!("{mark}; exit 3"), any),
         "signal" => (format!("{mark}; kill -9 $$"), any),
         "badutf8" => (format!("{mark}; printf 'a\\377b\\n'"), vec!["zz".to_string()]),
+        // no expectations: the output of a detached test case is not looked at
+        "detached" => (format!("{mark}; echo x > made-{id}"), vec![]),
         _ => (mark, any),
     }
 }
@@ -486,7 +549,8 @@ fn render(sb: &Sandbox, p: usize, d: usize, doc: &Doc) -> RenderedDoc {
     if !cram {
         if !doc.front.is_empty() {
             lines.push("---".into());
-            lines.extend(doc.front.lines().map(|l| l.to_string()));
+            let elsewhere = sb.root.join("elsewhere").display().to_string();
+            lines.extend(doc.front.lines().map(|l| l.replace("{ELSEWHERE}", &elsewhere)));
             lines.push("---".into());
             lines.push(String::new());
         }
@@ -507,7 +571,13 @@ fn render(sb: &Sandbox, p: usize, d: usize, doc: &Doc) -> RenderedDoc {
         } else {
             lines.push(format!("t-{id}"));
             lines.push(String::new());
-            let cfg = if t.timeout_ms > 0 { format!(" {{timeout: {}ms}}", t.timeout_ms) } else { String::new() };
+            let cfg = if t.kind == "detached" {
+                " {detached: true}".to_string()
+            } else if t.timeout_ms > 0 {
+                format!(" {{timeout: {}ms}}", t.timeout_ms)
+            } else {
+                String::new()
+            };
             lines.push(format!("```scrut{cfg}"));
             let open = lines.len();
             lines.push(format!("$ {cmd}"));
@@ -655,6 +725,14 @@ fn misplaced_kind(paths: &[String]) -> String {
     kinds.into_iter().collect::<Vec<_>>().join("+")
 }
 
+fn is_detached(case: &C18Case, r: &Rec) -> bool {
+    case.procs
+        .get(r.p)
+        .and_then(|p| p.docs.get(r.d))
+        .and_then(|d| d.tests.get(r.t))
+        .is_some_and(|t| t.kind == "detached")
+}
+
 fn check(env: &Env, case: &C18Case) -> Checked {
     // context buckets are attached to every verdict (also to violations) so that the coverage floors
     // do not depend on whether a class currently violates
@@ -724,6 +802,11 @@ fn check_inner(env: &Env, case: &C18Case, pre: &mut Vec<String>) -> Checked {
         }
     }
     let tmp_dir_str = tmp_dir.display().to_string();
+    // the directory scrut is called from must look the same afterwards; the directory a document's
+    // `defaults: {environment: {TMPDIR: ..}}` points to must stay empty
+    let docs_before = beside(&sb.docs, "\u{0}");
+    let elsewhere = sb.root.join("elsewhere");
+    let _ = std::fs::create_dir_all(&elsewhere);
 
     // run
     let build = |p: &Proc| -> ScrutCmd {
@@ -799,6 +882,8 @@ fn check_inner(env: &Env, case: &C18Case, pre: &mut Vec<String>) -> Checked {
 
     // observations right after exit
     let (tree0, mis0) = split_tree(&sb, &case.tmp_sub);
+    let docs0 = beside(&sb.docs, "\u{0}");
+    let else0 = beside(&elsewhere, "\u{0}");
     let w0 = work_listing(&wdir);
     let wmis0 = beside(&wd_parent, wname);
     let markers = sb.markers();
@@ -837,6 +922,8 @@ fn check_inner(env: &Env, case: &C18Case, pre: &mut Vec<String>) -> Checked {
         std::thread::sleep(Duration::from_millis(case.delay_ms));
     }
     let (tree1, mis1) = split_tree(&sb, &case.tmp_sub);
+    let docs1 = beside(&sb.docs, "\u{0}");
+    let else1 = beside(&elsewhere, "\u{0}");
     let w1 = work_listing(&wdir);
     let wmis1 = beside(&wd_parent, wname);
     let existing1: Vec<String> = obs_dirs.iter().filter(|d| Path::new(d).exists()).cloned().collect();
@@ -880,6 +967,10 @@ fn check_inner(env: &Env, case: &C18Case, pre: &mut Vec<String>) -> Checked {
     {
         let mut open: BTreeMap<(usize, usize), usize> = BTreeMap::new();
         for r in &recs {
+            if is_detached(case, r) {
+                // written asynchronously: judged against the document's executions below
+                continue;
+            }
             let key = (r.p, r.d);
             let start_new = match open.get(&key) {
                 Some(&i) => execs[i].2.last().is_some_and(|l| r.t <= l.t),
@@ -905,6 +996,20 @@ fn check_inner(env: &Env, case: &C18Case, pre: &mut Vec<String>) -> Checked {
         if rs[0].pwd.is_empty() || !rs[0].pwd.starts_with('/') {
             return Checked::inconclusive(format!("unusable pwd probe {:?}", rs[0].pwd));
         }
+    }
+    // detached test cases: the same directory as the other test cases of (some execution of) their document
+    for r in recs.iter().filter(|r| is_detached(case, r)) {
+        let of_doc: Vec<&String> = execs.iter().filter(|e| e.0 == r.p && e.1 == r.d).map(|e| &e.2[0].pwd).collect();
+        if of_doc.is_empty() {
+            continue;
+        }
+        if !of_doc.contains(&&r.pwd) {
+            return Checked::violated(
+                format!("C18/workdir/differs-within-document/md/mode={mode}/detached"),
+                detail(&format!("the detached test case p{}d{}t{} ran in {:?}, the other test cases of its document in {:?}", r.p, r.d, r.t, r.pwd, of_doc)),
+            );
+        }
+        ck = ck.bucket("workdir:detached-compared");
     }
     if mode == "workdir" {
         let wc = canon(&wdir);
@@ -996,6 +1101,12 @@ fn check_inner(env: &Env, case: &C18Case, pre: &mut Vec<String>) -> Checked {
             if get("TMPDIR_ISDIR") != "y" || !get("TMPDIR").starts_with('/') {
                 return bad("TMPDIR", "an existing temporary directory");
             }
+            if Path::new(get("TMPDIR")) == elsewhere.as_path() {
+                return bad("TMPDIR", "scrut's own temporary directory (a document default must not displace it)");
+            }
+            if doc.front.contains("environment:") {
+                ck = ck.bucket("env:probe-checked:document-defaults-name-documented-variables");
+            }
             if mode == "workdir" && !canon(Path::new(get("TMPDIR"))).is_some_and(|t| canon(&wdir).is_some_and(|w| t.starts_with(w))) {
                 // (the directory may be gone by now: then nothing can be said)
                 if Path::new(get("TMPDIR")).exists() {
@@ -1059,6 +1170,24 @@ fn check_inner(env: &Env, case: &C18Case, pre: &mut Vec<String>) -> Checked {
     }
 
     // ---- (3) clean-up -----------------------------------------------------------------------------
+    // nothing appears in the directory scrut was called from (whatever the mode), nor where a document default
+    // tried to point TMPDIR to
+    for (when, docs_now, else_now) in [("exit", &docs0, &else0), ("late", &docs1, &else1)] {
+        let new: Vec<&String> = docs_now.iter().filter(|p| !docs_before.contains(p)).collect();
+        if !new.is_empty() {
+            let what = if new.iter().any(|p| p.rsplit('/').next().is_some_and(|n| n.starts_with("made-"))) { "test-file" } else { "other" };
+            return Checked::violated(
+                format!("C18/cleanup-{when}/caller-directory/mode={mode}/left={what}"),
+                detail(&format!("({when}) new entries in the directory scrut was called from: {:?}", new.iter().take(8).collect::<Vec<_>>())),
+            );
+        }
+        if !else_now.is_empty() {
+            return Checked::violated(
+                format!("C18/cleanup-{when}/displaced-tmpdir/mode={mode}"),
+                detail(&format!("({when}) left in the directory a document default named as TMPDIR: {:?}", else_now.iter().take(8).collect::<Vec<_>>())),
+            );
+        }
+    }
     // anything that appeared next to (instead of inside) the TMPDIR / work directory that was given: a path
     // that was re-interpreted by a shell. With --keep-temporary-directories nothing is judged.
     if mode != "keep" {
@@ -1277,8 +1406,8 @@ impl Monitor for C18 {
 
     fn plan(&self, tier: Tier) -> Plan {
         let mut p = Plan::new(
-            tier.pick(216, 1440),
-            "one case = one run of the scrut binary (or a burst of 8 concurrent runs sharing one TMPDIR) over generated Markdown/Cram documents; case k belongs to outcome class k mod 18 {pass, fail, multi (same file name in several directories, same path twice, directory argument), per-test timeout, hostile parent environment, document timeout (front matter / --timeout-seconds), skip, parse error, burst, parse error in a prepended/appended document, missing shell, non-executable shell, Cram script ended by exit, command killed by a signal, renderer failure, missing document} x mode {default, --keep-temporary-directories, --work-directory}; observed: pwd/TMPDIR per test (marker log), documented variables (JSON of failing probe tests), TMPDIR tree and work directory right after exit and after a delay; non-trivial = at least one test reported its directory, or scrut gave up before running anything (exit != 0); distinct = hash of (class, mode, shell, environment, processes, document formats, test kinds, argument spellings)",
+            tier.pick(220, 1440),
+            "one case = one run of the scrut binary (or a burst of 8 concurrent runs sharing one TMPDIR) over generated Markdown/Cram documents; case k belongs to outcome class k mod 20 {detached first test case (Markdown), document defaults naming documented variables (Markdown front matter), pass, fail, multi (same file name in several directories, same path twice, directory argument), per-test timeout, hostile parent environment, document timeout (front matter / --timeout-seconds), skip, parse error, burst, parse error in a prepended/appended document, missing shell, non-executable shell, Cram script ended by exit, command killed by a signal, renderer failure, missing document} x mode {default, --keep-temporary-directories, --work-directory}; observed: pwd/TMPDIR per test (marker log), documented variables (JSON of failing probe tests), TMPDIR tree and work directory right after exit and after a delay; non-trivial = at least one test reported its directory, or scrut gave up before running anything (exit != 0); distinct = hash of (class, mode, shell, environment, processes, document formats, test kinds, argument spellings)",
         );
         p.chunk = 1;
         p.case_timeout_s = 120;
@@ -1313,10 +1442,13 @@ impl Monitor for C18 {
             ("path:tmpdir=dollar".into(), tier.pick(4, 25)),
             ("path:tmpdir=backtick".into(), tier.pick(2, 20)),
             ("path:workdir=dollar".into(), tier.pick(1, 8)),
+            ("workdir:detached-compared".into(), tier.pick(3, 20)),
+            ("env:probe-checked:document-defaults-name-documented-variables".into(), tier.pick(6, 40)),
             ("burst:processes-observed=8".into(), tier.pick(2, 14)),
         ]);
         p.assumptions = vec![
             "document directories / file names, the TMPDIR of the scrut process and the --work-directory also get names containing $ (unset variables), backticks (harmless command substitutions), double and single quotes, backslashes and blanks; whatever then appears beside (instead of inside) the given TMPDIR / work directory is a clean-up violation `misplaced` (not judged with --keep-temporary-directories)".into(),
+            "a detached test case is the first of its Markdown document, records its directory and creates a file by relative path; it is compared with the other test cases of the document, and the directory scrut was called from must not change; a document default `environment` naming a documented variable is configuration (not O-1): scrut's own value must reach every test case".into(),
             "O-1: no generated test modifies TESTDIR, TESTFILE, TESTSHELL, TMPDIR, SCRUT_TEST, the locale/terminal variables, or changes directory".into(),
             "with --work-directory the sharing of the directory between documents is the documented behaviour and is not judged".into(),
             "paths are compared after canonicalisation (TESTDIR, TESTSHELL, the path part of SCRUT_TEST); the line part of SCRUT_TEST must lie inside the code block of the test".into(),
